@@ -156,31 +156,98 @@ def run(prog, tier) -> Result:
     bad_ops = [w for w in writes if w.func == "DefinedItemRegistry.register_item" and w.op not in ("append", "[]=", "=")]
     res.ob("R17.4", "DefinedItemRegistry.register_item", "append / new key only", not bad_ops, repr(bad_ops),
            sig="registry mutated non-monotonically", nontrivial=False)
-    # a new key is stored only in the handler of the failed lookup (existing keys are never re-pointed)
-    ok_new_key = False
-    for n in ast.walk(ri.node):
-        if isinstance(n, ast.Try):
-            for h in n.handlers:
-                if h.type is not None and src_of(h.type) == "KeyError":
-                    for x in ast.walk(ast.Module(body=h.body, type_ignores=[])):
-                        if isinstance(x, ast.Assign) and isinstance(x.targets[0], ast.Subscript) and \
-                                "_item_def_map" in src_of(x.targets[0].value):
-                            ok_new_key = True
-    stores_elsewhere = [w for w in writes if w.func == "DefinedItemRegistry.register_item" and w.state == "_item_def_map"
-                        and w.op == "[]="]
-    res.ob("R17.4", "DefinedItemRegistry.register_item", "definition key inserted only when absent",
-           ok_new_key and len(stores_elsewhere) == 1, f"{len(stores_elsewhere)} key stores",
-           sig="registry key may be re-pointed")
-    gi = prog.method("DefinedItemRegistry", "__getitem__")
-    rets = [n for n in ast.walk(gi.node) if isinstance(n, ast.Return)]
-    first = len(rets) == 1 and isinstance(rets[0].value, ast.Subscript) and src_of(rets[0].value.slice) == "0"
-    norm = any(isinstance(n, ast.Call) and isinstance(n.func, ast.Attribute) and n.func.attr == "normalized"
-               for n in ast.walk(gi.node))
-    res.ob("R17.4", "DefinedItemRegistry.__getitem__", "first registered item of the normalised key", first and norm,
-           src_of(rets[0]) if rets else "", sig="registry reader does not take the first registered item")
-    keyed = any(isinstance(n, ast.Attribute) and n.attr == "normalized_definition" for n in ast.walk(ri.node))
-    res.ob("R17.4", "DefinedItemRegistry.register_item", "keyed by the normalised definition", keyed, "",
-           sig="registry writer and reader use different keys")
+    # ---- registry semantics, evaluated (not pattern-matched): buckets by normalised definition, first wins, monotone
+    from ..engine_a import run_body
+    from ..models import DictV
+    from ..report import Violation
+    reg_ci = prog.cls("DefinedItemRegistry")
+
+    def reg_body(unique):
+        def body(I, c):
+            st = c.st
+            I.models.term_objects = True
+            c.new_type("T", **FLAVORS["ref"])
+            base = UnitV(st.ref_unit("T"))
+            st.U(base.uid).kind = "ref"
+            st.unit_defs[base.uid] = "base"
+            TERM = TypeV("Term", prog.cls("Term"))
+
+            def term(items):
+                tv = TupleV([TupleV([e, Num(RF.const(x), "int")]) for e, x in items])
+                return I.models.call(TERM, [tv], {}, None)
+            k = Num(RF.const(1000), "dec")
+            ua = UnitV(st.new_unit("T", uid="ua", mu=RF.const(1000) * st.norm(st.U(base.uid).mu), kind="defined"))
+            ub = UnitV(st.new_unit("T", uid="ub", mu=RF.const(1000) * st.norm(st.U(base.uid).mu), kind="defined"))
+            uc = UnitV(st.new_unit("T", uid="uc", mu=RF.const(60) * st.norm(st.U(base.uid).mu), kind="defined"))
+            st.distinct_units("ua", "ub")
+            st.unit_defs["ua"] = term([(k, 1), (base, 1)])
+            st.unit_defs["ub"] = term([(base, 1), (k, 1)])
+            st.unit_defs["uc"] = term([(Num(RF.const(60), "dec"), 1), (base, 1)])
+            reg = ObjV(reg_ci, "registry", {"_unique_items": BoolV(unique), "_item_def_map": DictV(), "_item_list": ListV([])})
+            ri_ = prog.method("DefinedItemRegistry", "register_item")
+            gi_ = prog.method("DefinedItemRegistry", "__getitem__")
+            i1 = I.call_function(ri_, [reg, ua], {})
+            i3 = I.call_function(ri_, [reg, uc], {})
+            got_before = I.call_function(gi_, [reg, term([(k, 1), (base, 1)])], {})
+            dup = None
+            try:
+                i2 = I.call_function(ri_, [reg, ub], {})
+            except AbsRaise as ar:
+                i2, dup = None, ar.exc.name
+            got_after = I.call_function(gi_, [reg, term([(base, 1), (k, 1)])], {})
+            got_c = I.call_function(gi_, [reg, term([(Num(RF.const(60), "dec"), 1), (base, 1)])], {})
+            try:
+                I.call_function(gi_, [reg, term([(Num(RF.const(7), "dec"), 1), (base, 1)])], {})
+                missing = "found"
+            except AbsRaise as ar:
+                missing = ar.exc.name
+            st.regres = dict(i1=i1, i2=i2, i3=i3, dup=dup, before=got_before, after=got_after, c=got_c, missing=missing,
+                             ua=ua, ub=ub, uc=uc, reg=reg)
+            return reg
+        return body
+
+    def reg_judge(unique):
+        def judge(o):
+            st = o.state
+            if o.kind == "raise":
+                return (exc_sig(o), "registry scenario raised")
+            r = st.regres
+            same = lambda x, y: isinstance(x, UnitV) and st.same_unit(x.uid, y.uid) is True
+            if not same(r["before"], r["ua"]):
+                return ("lookup by definition does not return the registered item", repr(r["before"]))
+            if not same(r["after"], r["ua"]):
+                return ("a later registration with an equivalent definition changes what the definition resolves to",
+                        f"after registering ub: {r['after']!r} (first registered: ua)")
+            if not same(r["c"], r["uc"]):
+                return ("items of different definitions share a bucket", repr(r["c"]))
+            if r["missing"] != "KeyError":
+                return ("unregistered definition does not raise KeyError", r["missing"])
+            # (ua == ub: equal items are accepted by both kinds of registry and share an id)
+            if r["dup"] is not None:
+                return ("registry rejects an equal item with an equivalent definition", repr(r["dup"]))
+            i1, i2 = r["i1"], r["i2"]
+            if not (isinstance(i1, Num) and isinstance(i2, Num) and st.norm(i1.rf).equals(st.norm(i2.rf))):
+                return ("equivalent definitions get different registry ids", f"{i1!r} vs {i2!r}")
+            return None
+        return judge
+    for unique in (False, True):
+        site = "DefinedItemRegistry.register_item/__getitem__"
+        case = f"two equivalent and one different definition, unique_items={unique}"
+        outs = run_body(prog, reg_body(unique), max_depth=16)
+        res.paths += len(outs)
+        res.functions.add(site)
+        fails = [Violation("R17.4", site, case, r_[0], r_[1], list(o.trace))
+                 for o in outs for r_ in [reg_judge(unique)(o)] if r_ is not None]
+        if not outs:
+            fails.append(Violation("R17.4", site, case, "no feasible path", ""))
+        res.obligations += 1
+        res.evaluations += max(1, len(outs))
+        res.rules["R17.4"] = res.rules.get("R17.4", 0) + 1
+        res.nontrivial_keys.add(("R17.4", site, case))
+        if not fails:
+            res.discharged += 1
+        res.violations.extend(fails)
+
     # nothing anywhere deletes from or clears a directory
     destructive = [w for w in writes if w.op in ("del", "clear", "pop", "popitem", "remove") and
                    w.state in (sym_names | cache_names | {"_item_def_map", "_item_list", "_unit_map"})]
